@@ -184,10 +184,10 @@ impl BinRead for CimMode {
         let seltype = u8::read_options(reader, endian, ())?;
 
         let res = match discrim {
-            0 => Self::Normal(submode.into()),
+            0 if submode <= CimSubModeNormal::PitInstructions as u8 => Self::Normal(submode.into()),
             1 => Self::Options,
             2 => Self::HostOptions,
-            3 => Self::Garage(submode.into()),
+            3 if submode <= CimSubModeGarage::Pass as u8 => Self::Garage(submode.into()),
             4 => Self::CarSelect,
             5 => Self::TrackSelect,
             6 => Self::ShiftU {
